@@ -1503,7 +1503,27 @@ pub trait QueryBuilder:
         if right_paren {
             write!(sql, "(").unwrap();
         }
-        self.prepare_simple_expr(right, sql);
+        match right {
+            // `a BETWEEN low AND high`: the AND belongs to BETWEEN, so each bound needs
+            // parentheses unless it binds tighter than BETWEEN itself.
+            SimpleExpr::Binary(low, _, high) if drop_right_between_hack => {
+                for (i, bound) in [low, high].into_iter().enumerate() {
+                    if i > 0 {
+                        write!(sql, " AND ").unwrap();
+                    }
+                    let bound_paren =
+                        !self.inner_expr_well_known_greater_precedence(bound, &op_as_oper);
+                    if bound_paren {
+                        write!(sql, "(").unwrap();
+                    }
+                    self.prepare_simple_expr(bound, sql);
+                    if bound_paren {
+                        write!(sql, ")").unwrap();
+                    }
+                }
+            }
+            _ => self.prepare_simple_expr(right, sql),
+        }
         if right_paren {
             write!(sql, ")").unwrap();
         }
